@@ -100,3 +100,91 @@ def dump_instance(instance):
          for job in instance.jobs],
         repr(sorted(instance.metadata.items())),
     )
+
+
+# ---------------------------------------------------------------------------------------------
+# From-scratch recomputation of dispatcher queries and filter criteria (C05, C06, C07, C11)
+# ---------------------------------------------------------------------------------------------
+class View:
+    """What the schedule alone implies; never reads the dispatcher's tracking vectors or memo."""
+
+    def __init__(self, instance, schedule_lists):
+        self.instance = instance
+        self.lists = [list(ms) for ms in schedule_lists]
+        self.sop = {}
+        for ms in self.lists:
+            for x in ms:
+                self.sop[x.operation.operation_id] = x
+        self.mach_free = [max((x.end_time for x in ms), default=0) for ms in self.lists]
+        self.job_ready = []
+        self.next_pos = []
+        for job in instance.jobs:
+            ends = [self.sop[o.operation_id].end_time for o in job if o.operation_id in self.sop]
+            self.job_ready.append(max(ends, default=0))
+            self.next_pos.append(sum(1 for o in job if o.operation_id in self.sop))
+
+    def start(self, op, m):
+        return max(self.mach_free[m], self.job_ready[op.job_id])
+
+    def scheduled(self):
+        return [o for job in self.instance.jobs for o in job if o.operation_id in self.sop]
+
+    def unscheduled(self):
+        return [o for job in self.instance.jobs for o in job if o.operation_id not in self.sop]
+
+    def raw_ready(self):
+        return [job[self.next_pos[j]] for j, job in enumerate(self.instance.jobs) if self.next_pos[j] < len(job)]
+
+    def makespan(self):
+        return max((x.end_time for x in self.sop.values()), default=0)
+
+    def min_start(self, ops):
+        if not ops:
+            return self.makespan()
+        return min(self.start(o, m) for o in ops for m in o.machines)
+
+    def earliest_start(self, op):
+        return max(min(self.mach_free[m] for m in op.machines), self.job_ready[op.job_id])
+
+    # ---- documented criteria of the four filters
+    def f_nidle(self, ops):
+        t = self.min_start(ops)
+        busy = {m for m, ms in enumerate(self.lists) if any(x.end_time > t for x in ms)}
+        return [o for o in ops if any(m not in busy for m in o.machines)]
+
+    def f_nio(self, ops):
+        t = self.min_start(ops)
+        return [o for o in ops if self.earliest_start(o) == t]
+
+    def f_nim(self, ops):
+        t = self.min_start(ops)
+        imm = {m for o in ops for m in o.machines if self.start(o, m) == t}
+        return [o for o in ops if any(m in imm for m in o.machines)]
+
+    def f_dom(self, ops):
+        zero = [o for o in ops if o.duration == 0]
+        if zero:
+            return [zero[0]]
+        min_end = {}
+        for o in ops:
+            for m in o.machines:
+                e = self.start(o, m) + o.duration
+                min_end[m] = min(min_end.get(m, e), e)
+        return [o for o in ops if any(self.start(o, m) < min_end[m] for m in o.machines)]
+
+    def apply(self, tokens, ops):
+        fs = {"dom": self.f_dom, "nim": self.f_nim, "nidle": self.f_nidle, "nio": self.f_nio}
+        for t in tokens:
+            ops = fs[t](ops)
+        return ops
+
+    def available(self, filter_tokens):
+        raw = self.raw_ready()
+        return raw if filter_tokens is None else self.apply(filter_tokens, raw)
+
+    def now(self, filter_tokens):
+        return self.min_start(self.available(filter_tokens))
+
+    def ongoing(self, filter_tokens):
+        t = self.now(filter_tokens)
+        return [x for x in self.sop.values() if x.end_time > t]
